@@ -7086,11 +7086,11 @@ class _RoundShape(Shape):
         path = Path()
         steps = 4
         step_size = tau / steps
-        if (
-            transformed
-            and self.transform.value_scale_x() * self.transform.value_scale_y() < 0
-        ):
-            step_size = -step_size
+        if transformed:
+            m = self.transform
+            # A diagonal product which is only rounding noise (quarter turns) does not flip.
+            if m.a * m.d < -1e-12 * abs(m.b * m.c):
+                step_size = -step_size
         t_start = 0
         t_end = step_size
         # zero for either dimension, or a computed value of auto for both dimensions, disables rendering of the element.
